@@ -125,7 +125,7 @@ class Graph:
                 raise ValueError('Incorrect edge specification')
             self.edges = edges
         else:
-            self.edges = []
+            self.edges = np.zeros((0, 2), dtype=np.intp)
 
     ### Methods
 
